@@ -142,6 +142,11 @@ func (r *verifyRun) mint(kind string, expIn time.Duration, jti string) *vtok {
 		sig[len(sig)/2] ^= 0x10
 		t.raw = parts[0] + "." + parts[1] + "." + b64.EncodeToString(sig)
 	}
+	if kind == "padded" {
+		// a valid token as a client may deliver it: followed by a line break (base64 decoding skips CR and LF, so it verifies);
+		// it is a string of its own for the cache, the revocation list and RevokeToken
+		t.raw += []string{"\n", "\r\n"}[r.n%2]
+	}
 	if kind == "garbage" {
 		t.raw = fmt.Sprintf("garbage-%d.not-a.token", r.n)
 	}
@@ -213,7 +218,7 @@ func familyVerify(t *testing.T) {
 				R = 3
 			}
 			r := newVerifyRun(R)
-			kinds := []string{"valid", "valid", "valid", "valid", "future", "badsig", "iss", "aud", "nosub", "garbage", "samesig", "sameprefix"}
+			kinds := []string{"valid", "valid", "valid", "valid", "future", "badsig", "iss", "aud", "nosub", "garbage", "samesig", "sameprefix", "padded"}
 			exps := []time.Duration{5 * time.Minute, 30 * time.Minute, 2 * time.Hour, 26 * time.Hour, 72 * time.Hour, -time.Hour, 90 * time.Second}
 			nTok := 3 + rng.Intn(10)
 			for i := 0; i < nTok; i++ {
@@ -265,6 +270,15 @@ func familyVerify(t *testing.T) {
 				damaged := r.mint("sameprefix", 30*time.Minute, "")
 				r.verify(damaged, false)
 				r.verify(tk, false)
+			}
+			if sc%7 == 3 { // a token delivered with a trailing line break: verified, revoked under that very string, verified again
+				tk := r.mint("padded", 30*time.Minute, []string{"", fmt.Sprintf("jti-padded-%d", sc)}[sc/7%2])
+				r.verify(tk, false)
+				r.revoke(tk)
+				r.verify(tk, false)
+				vsleep(time.Duration(1+rng.Intn(600)) * time.Second)
+				r.verify(tk, false)
+				T.stat("verify.padded-revocation")
 			}
 			if sc%5 == 2 && sc%2 == 0 { // first verified only after its exp, inside the clock-skew window (accepted), then again once the window has closed
 				tk := r.mint("valid", 90*time.Second, "")
